@@ -244,7 +244,7 @@ class EngineSystem:
 
     def __init__(self, prog: dict, observe_c11: bool = True, start: float = 1000.0):
         self.prog = prog
-        self.loop = vloop.new_loop(start=start)
+        self.loop = vloop.new_loop(start=start, wall_epoch=100000.0)   # ms values stay below 2^31 for TLC
         self._clocks = vloop.patched_clocks(self.loop)
         self._clocks.__enter__()
         self.t0 = self.loop.time()
